@@ -83,6 +83,10 @@ func loadEngine(repo, verif string) (*Engine, error) {
 		}
 	}
 	x.runInits(spkgs)
+	// definitional facts created while running init (e.g. atan(1/32) of the
+	// thread table) are not part of any contract's hypothesis set
+	x.gstate.apps = nil
+	x.gstate.ax = nil
 	x.freshBase = map[string]int{}
 	for k, n := range freshCtr {
 		x.freshBase[k] = n
@@ -92,6 +96,13 @@ func loadEngine(repo, verif string) (*Engine, error) {
 		return nil, err
 	}
 	x.specs = cs.specs
+	x.lemmaByName = map[string]*Contract{}
+	x.usedLemmas = map[string]bool{}
+	for _, ct := range cs.contracts {
+		if ct.lemma {
+			x.lemmaByName[ct.key()] = ct
+		}
+	}
 	e := &Engine{x: x, cs: cs, repo: repo, verif: verif, pkgs: pkgs, spkgs: spkgs, loadMs: time.Since(t0).Milliseconds()}
 	// resolve modular contracts up front
 	for _, ct := range cs.contracts {
@@ -294,6 +305,37 @@ func runCheck(prop, repo, verif, tier, only string, updateBaseline, verbose, noE
 			fmt.Printf("  %s: %d queries, %d paths\n", ct.label(), len(x.obls)-n0, x.pathsOf[ct.label()])
 		}
 	}
+	// lemmas used by the verified contracts are proved in the same run
+	for round := 0; round < 3; round++ {
+		added := false
+		for _, ct := range e.cs.contracts {
+			if !ct.lemma || !x.usedLemmas[ct.label()] {
+				continue
+			}
+			already := false
+			for _, c := range cts {
+				if c == ct {
+					already = true
+				}
+			}
+			if already {
+				continue
+			}
+			cts = append(cts, ct)
+			added = true
+			n0 := len(x.obls)
+			if err := x.verifyContract(ct); err != nil {
+				x.obls = x.obls[:n0]
+				engineErrs = append(engineErrs, fmt.Sprintf("%s: %v", ct.label(), err))
+				errByLabel[ct.label()] = err.Error()
+				continue
+			}
+			fnsUnder = append(fnsUnder, ct.label())
+		}
+		if !added {
+			break
+		}
+	}
 	// built-in (non-contract) checks for the property
 	extra := builtinChecks(e, prop, tier)
 
@@ -448,6 +490,22 @@ func runCheck(prop, repo, verif, tier, only string, updateBaseline, verbose, noE
 	fmt.Printf("%s [%s]: %d obligations, %d discharged, %d known findings, %d undecided-uncounted, %d violations, %d engine errors, %.1fs (load %.1fs, solver %.1fs cpu)\n",
 		prop, tier, nObl, nDis, nKnown, nUndecidedNew, violations, len(engineErrs), wall, float64(e.loadMs)/1000, float64(solverMs)/1000)
 	if verbose {
+		type kv struct {
+			n  string
+			ms int64
+			q  int
+		}
+		var tops []kv
+		for _, n := range order {
+			tops = append(tops, kv{n, groups[n].Ms, groups[n].Queries})
+		}
+		sort.Slice(tops, func(i, j int) bool { return tops[i].ms > tops[j].ms })
+		for i, t := range tops {
+			if i >= 12 {
+				break
+			}
+			fmt.Printf("  slowest: %-70s %6d ms in %d queries\n", t.n, t.ms, t.q)
+		}
 		for _, s := range engineErrs {
 			fmt.Println("  engine:", s)
 		}
